@@ -226,6 +226,8 @@ def namespace_for(c, params):
     ns = dict(vars(c.module)) if c.module is not None else {}
     from giscanner import message
     ns['LOGGER'] = message.MessageLogger.get()
+    ns.setdefault('is_fresh', lambda x: True)
+    ns.setdefault('same_list', lambda a, b: a is not None and b is not None and list(a) == list(b))
     ns.update(params)
     return ns
 
